@@ -164,9 +164,35 @@ def show(res):
 # ----------------------------------------------------------------------------------------------
 # the real functions
 # ----------------------------------------------------------------------------------------------
+# inputs a pure function was seen to modify: (function, argument, canonical text before, after)
+INPUT_MUTATIONS = []
+# ONE shared object per distinct default tree: every call on that default gets the same object, as
+# the real code hands its loaded defaults on.  A call that scribbles on it is seen by the
+# before/after comparison here and by every later case (the model has no history).
+_SHARED_DEFAULTS = {}
+
+
+def _shared(default):
+    key = canon(default)
+    if key not in _SHARED_DEFAULTS:
+        _SHARED_DEFAULTS[key] = copy.deepcopy(default)
+    return _SHARED_DEFAULTS[key], key
+
+
 def real_check(omit, default, test):
-    d, t = copy.deepcopy(default), copy.deepcopy(test)
-    return guarded(lambda: check_types(d, t, "verif", omit_keys=list(omit)) or "ok")
+    d, dkey = _shared(default)
+    t = copy.deepcopy(test)
+    tkey = canon(t)
+    om = list(omit)
+    r = guarded(lambda: check_types(d, t, "verif", omit_keys=om) or "ok")
+    if canon(d) != dkey:
+        INPUT_MUTATIONS.append(("check_types", "default", dkey[:300], canon(d)[:300]))
+        _SHARED_DEFAULTS.pop(dkey, None)
+    if canon(t) != tkey:
+        INPUT_MUTATIONS.append(("check_types", "test", tkey[:300], canon(t)[:300]))
+    if om != list(omit):
+        INPUT_MUTATIONS.append(("check_types", "omit_keys", str(list(omit)), str(om)))
+    return r
 
 
 class in_repo:
@@ -194,12 +220,16 @@ def _im_obj():
 
 def real_merge(default, user):
     d, u = copy.deepcopy(default), copy.deepcopy(user)
+    ukey = canon(u)
 
     def f():
         _im_obj().retain_update(d, u)
         return d
 
-    return guarded(f)
+    r = guarded(f)
+    if canon(u) != ukey:
+        INPUT_MUTATIONS.append(("retain_update", "new_parameters", ukey[:300], canon(u)[:300]))
+    return r
 
 
 def real_strip(tree):
@@ -269,3 +299,114 @@ def real_intake_paths(paths):
                 return m.read_and_validate_parameters(list(paths))
 
     return guarded(f)
+
+
+# ----------------------------------------------------------------------------------------------
+# state that could survive between cases: class- / module-level mutable containers, copy hooks
+# ----------------------------------------------------------------------------------------------
+def mutable_state_table(rel_files):
+    """AST table of what could carry state from one case to the next in the given source files:
+    module-level and class-level assignments of mutable containers (dict / list / set displays,
+    comprehensions, calls of dict/list/set/defaultdict/OrderedDict/deque), functools caches,
+    __copy__ / __deepcopy__ / __reduce__ / __getstate__ / __setstate__ hooks, `global` statements.
+    Returns sorted rows "file:scope:name:kind"."""
+    import ast as _ast
+
+    rows = []
+    ctor = {"dict", "list", "set", "defaultdict", "OrderedDict", "deque", "Counter"}
+    hooks = {"__copy__", "__deepcopy__", "__reduce__", "__reduce_ex__", "__getstate__", "__setstate__"}
+
+    def kind(v):
+        if isinstance(v, (_ast.Dict, _ast.DictComp)):
+            return "dict"
+        if isinstance(v, (_ast.List, _ast.ListComp)):
+            return "list"
+        if isinstance(v, (_ast.Set, _ast.SetComp)):
+            return "set"
+        if isinstance(v, _ast.Call):
+            f = v.func
+            nm = f.id if isinstance(f, _ast.Name) else (f.attr if isinstance(f, _ast.Attribute) else None)
+            if nm in ctor:
+                return nm
+        return None
+
+    def scan(body, scope, rel):
+        for node in body:
+            targets, value = [], None
+            if isinstance(node, _ast.Assign):
+                targets, value = node.targets, node.value
+            elif isinstance(node, _ast.AnnAssign) and node.value is not None:
+                targets, value = [node.target], node.value
+            k = kind(value) if value is not None else None
+            if k:
+                for t in targets:
+                    if isinstance(t, _ast.Name):
+                        rows.append(f"{rel}:{scope}:{t.id}:{k}")
+            if isinstance(node, _ast.ClassDef):
+                scan(node.body, node.name, rel)
+            if isinstance(node, (_ast.FunctionDef, _ast.AsyncFunctionDef)):
+                if node.name in hooks:
+                    rows.append(f"{rel}:{scope}:{node.name}:hook")
+                for dec in node.decorator_list:
+                    txt = _ast.unparse(dec)
+                    if "cache" in txt:
+                        rows.append(f"{rel}:{scope}:{node.name}:cache")
+                for sub in _ast.walk(node):
+                    if isinstance(sub, _ast.Global):
+                        for nm in sub.names:
+                            rows.append(f"{rel}:{scope}.{node.name}:{nm}:global")
+
+    for rel in rel_files:
+        with open(os.path.join(shim.REPO_SRC, rel)) as fh:
+            tree = _ast.parse(fh.read())
+        scan(tree.body, "<module>", rel)
+    return sorted(set(rows))
+
+
+def snapshot_state(rows):
+    """canonical text of the current value of every container of the table (import + getattr)"""
+    import importlib
+
+    out = {}
+    for row in rows:
+        rel, scope, name, k = row.split(":")
+        if k in ("hook", "cache", "global"):
+            continue
+        mod = importlib.import_module(rel[:-3].replace("/", "."))
+        obj = mod if scope == "<module>" else getattr(mod, scope, None)
+        if obj is None:   # a class nested in another class
+            for outer in vars(mod).values():
+                if isinstance(outer, type) and isinstance(getattr(outer, scope, None), type):
+                    obj = getattr(outer, scope)
+                    break
+        try:
+            out[row] = json.dumps(getattr(obj, name), sort_keys=True, default=repr)
+        except Exception as e:  # noqa: BLE001
+            out[row] = "unreadable:" + type(e).__name__
+    return out
+
+
+def intake_alone(trees):
+    """the same intake in a FRESH interpreter (no history at all): canonical outcome text"""
+    import subprocess
+    import sys
+
+    code = (
+        "import sys, json\n"
+        "sys.path.insert(0, %r)\n"
+        "from harness.adapters import tree as T\n"
+        "trees = json.loads(sys.stdin.read())\n"
+        "sc = T.Scratch()\n"
+        "try:\n"
+        "    p, _ = sc.write(trees)\n"
+        "    r = T.real_intake_paths(p)\n"
+        "finally:\n"
+        "    sc.close()\n"
+        "sys.stdout.write('RESULT ' + T.show(r))\n"
+    ) % os.path.dirname(os.path.dirname(os.path.dirname(os.path.abspath(__file__))))
+    p = subprocess.run([sys.executable, "-c", code], input=json.dumps(trees), text=True, stdout=subprocess.PIPE,
+                       stderr=subprocess.PIPE, timeout=600, env=dict(os.environ, PYTHONDONTWRITEBYTECODE="1"))
+    for line in p.stdout.splitlines():
+        if line.startswith("RESULT "):
+            return line[len("RESULT "):]
+    return "crash:" + (p.stderr or p.stdout)[-300:]
